@@ -21,7 +21,7 @@ func init() {
 			"(6) the groups: multi-key operations group keys by calKeyFn(key), sort the groups with a single strict comparison of their shard index on every path, and take per-shard locks in that order. " +
 			"NOT decided: deadlock freedom in general (these are the necessary ordering conditions), re-entrancy misuse, fairness.",
 		Assumptions: []string{"sync.RWMutex semantics", "multi-key callers pass duplicate-free, consistently ordered lists (as the property states)"},
-		Floors:      map[string]int{"C02.guarded-by": 20, "C02.no-block-under-table-lock": 6, "C02.register-before-block": 6, "C02.mode-table": 12, "C02.reclaim": 6, "C02.entry-create": 6, "C02.group-order": 3, "C02.delegation": 8, "C02.index-provenance": 8, "C02.construction": 2},
+		Floors:      map[string]int{"C02.guarded-by": 20, "C02.no-block-under-table-lock": 6, "C02.register-before-block": 6, "C02.mode-table": 12, "C02.reclaim": 8, "C02.entry-create": 6, "C02.group-order": 3, "C02.delegation": 8, "C02.index-provenance": 8, "C02.construction": 2},
 		Run:         runC02,
 	})
 }
@@ -56,6 +56,9 @@ func runC02(c *Ctx) {
 		if x.lockMap == nil || x.locker == nil {
 			continue
 		}
+		// the table itself is never replaced: a fresh map drops the entries of keys that are held (through either
+		// the single-key or the multi-key calls), and the next caller for such a key gets a new mutex
+		c.check(c.immutableField(x.lockMap), "C02.reclaim", typ+".lockMap replaced", x.lockMap.Pos(), "the table is assigned only at construction", "the lock table is assigned after construction (reset or swapped for a fresh map): entries of keys that are currently held are dropped with it, so a second caller for such a key creates a new entry and enters beside the holder")
 		named := c.namedType(rel, typ)
 		x.cfg = TraceConfig{Inline: func(callee *ssa.Function, depth int) bool {
 			return depth <= 6 && c.fnInModule(callee) && recvNamed(callee) == named.Origin()
